@@ -78,6 +78,22 @@ def run(chk: core.Check):
                 chk.sample({"op": e["op"], "ps": e["ps"], "shape": e["shape"],
                             "pre_s1": e["pre"]["s"][0], "post_s1": e["post"]["s"][0]})
     chk.extra["ops_covered"] = len(seen_ops)
+    # kernels with rational / symbolic results (Brinkmann penalisation, boundary-zone damping, characteristic function) are modelled
+    # in MC_Stabilisers / CharFunc: their closed forms and write regions are replayed here as well (shared with C19)
+    from . import c19
+    from . import tlc as _tlc
+
+    rng = np.random.default_rng(seed)
+    r = c19.mc(chk, "MC_Stabilisers 2D brinkmann+damp", (7, 9), {"brinkmann", "damp"}, widths=(0, 1, 2, 3), emit=True)
+    cases = _tlc.dedupe(r.emits)
+    c19.replay_brinkmann(chk, [e for e in cases if e["cs"]["kind"] == "brinkmann"])
+    for e in cases:
+        if e["cs"]["kind"] == "damp":
+            c19.replay_damp(chk, e, rng)
+    r = c19.mc(chk, "MC_Stabilisers 3D damp", (6, 7, 9), {"damp"}, widths=(0, 1, 2) if tier == "quick" else (0, 1, 2, 3, 4), emit=True)
+    for e in _tlc.dedupe(r.emits):
+        c19.replay_damp(chk, e, rng)
+    c19.char_func(chk, tier == "quick")
     chk.assumptions += [
         "compat shim (harness/shim.py) between SophT and pystencils 2.0 is behaviour preserving",
         "TLC evaluates the specification correctly; JSON emission is faithful",
